@@ -38,6 +38,7 @@ REQUIRED = {
         'collections-with-identical-levels-on-different-clocks': 20,
         'collections-compared-across-orders-each-in-its-own-process': 20,
         'datasets-with-a-grid-coarser-than-some-rises': 2,
+        'datasets-with-a-small-rise-starting-exactly-on-a-grid-level-at-or-above-zero': 1,
         'main-body-identified': 100,
         'head-mappings-compared-under-relabelling': 100,
         'head-mappings-with-1000+-series-compared-under-relabelling': 1,
@@ -440,6 +441,16 @@ def run(ctx):
             ups = sorted(b - a for a, b in zip(zs, zs[1:]) if b - a > 0.5)
             case['grid_step'] = float(max(2, round(1.5 * ups[len(ups) // 2]))) if ups else 8.0
             ctx.rec.hit('datasets-with-a-grid-coarser-than-some-rises')
+            # ... and the record placed so that a rise smaller than one grid step starts exactly on a grid
+            # level at or above zero (it shares that level with whatever else crosses it)
+            gs = case['grid_step']
+            small = [k for k in range(1, len(zs) - 1) if zs[k] <= zs[k - 1] and zs[k + 1] > zs[k] and 0.5 < max(zs[k + 1:k + 6]) - zs[k] < gs]
+            if small:
+                k = rng.choice(small)
+                target = max(0, math.ceil(zs[k] / gs)) * gs
+                delta = target - zs[k]
+                case['z'] = [[t, target if j == k else v + delta] for j, (t, v) in enumerate(case['z'])]
+                ctx.rec.hit('datasets-with-a-small-rise-starting-exactly-on-a-grid-level-at-or-above-zero')
         elif i % 3 == 2:
             case = gen_planted.gen_noisy(rng)
         else:
